@@ -105,6 +105,7 @@ def evaluate(spec):
         tuples.setdefault((e_["cip"], e_["cport"], e_["sip"], e_["sport"]), set()).add(c_["kind"])
     if any(len(v) > 1 for v in tuples.values()):
         labels.append("tcp-and-udp-flow-with-equal-addresses-and-ports")
+    labels.append("times:" + (spec.get("times") or "epoch"))
     labels.append("keys:" + ("one DSB per connection in front of its first packet" if spec.get("dsb_per_conn") else "shared file"))
     labels.append("keylog:" + ("long (%d foreign lines)" % spec["kpad"] if spec.get("kpad") else "own lines only"))
     return {"sig": sig, "detail": detail, "nontrivial": exporting >= 2 and alt >= 3, "labels": labels, "evals": evals}
@@ -180,7 +181,7 @@ def spec_strategy(draw, tier):
         c["seed"] = c.get("seed", 0) * 16 + i
         conns.append(c)
     return {"conns": conns, "order": draw(st.lists(st.integers(0, 9), min_size=2, max_size=20)), "tseed": draw(st.integers(1, 1000)),
-            "kseed": draw(st.integers(0, 1 << 20)), "topology": topology, "kpad": draw(st.sampled_from([0, 0, 0, 120, 400])),
+            "kseed": draw(st.integers(0, 1 << 20)), "topology": topology, "kpad": draw(st.sampled_from([0, 0, 0, 120, 400])), **({"times": "long_gaps"} if draw(st.integers(0, 3)) == 0 else {}),
             "dsb_per_conn": draw(st.sampled_from([False, False, False, True]))}
 
 
